@@ -345,6 +345,15 @@ def lazy_destroy_cases(ctx):
                 acases.append((prog, '>0' * 5 + '1b' * j + '>0' * k + '1b' * 3 + '>0>0', ('1', '8', 'o', '0', '0', '1')))
     return acases
 
+def run_partitioned_faults(ctx, what, pid, n, proto_driver=None):
+    """concurrent programs on the build whose every resize level takes the partitioned multi-thread path, with chosen pthread_create calls failing with EAGAIN (the first
+    helper of a level, a later one, several): the caller must process whatever the helpers did not"""
+    pimpl = build_part(ctx)
+    if not pimpl: return
+    pconfs = [('2', '8', 'o', '3', str(m)) for m in (0, 1, 2, 4, 6, 8, 10, 32, 48, 5)] + [('1', '8', 'o', '1', '0'), ('4', '8', 'o', '3', '16')]
+    pprogs = ['A3A6A9/L3L6TL9/Z3Z1Z3', 'A0A4A3A6/Z3L6TL4/Z0Z2T', 'U3U5U6/Z2Z3L6L3T/L5TZ1']
+    run_cases(ctx, what, pimpl, gen(ctx, pprogs, n, pid, pconfs), proto_driver=proto_driver, nontrivial=lambda raw: ' create ' in raw)
+
 def partitioned_seq_cases(ctx):
     """one user thread; every resize level goes through the partitioned multi-thread path (helper threads created by the library, scheduled between the user's operations)"""
     cases = []
